@@ -79,10 +79,23 @@ func Generate(r *rand.Rand, o Opts) *Project {
 		funcsPer = 3
 	}
 	// libraries: lib i may import libs j > i (acyclic)
+	// library 1 lives in the module root (import path == module path) when no main does
+	rootLib := !o.RootMain && nLibs >= 2 && r.Intn(3) == 0
 	for i := 0; i < nLibs; i++ {
 		dir := fmt.Sprintf("pkg/l%d", i)
 		if i%3 == 2 {
 			dir = fmt.Sprintf("internal/deep/l%d", i)
+		}
+		// sibling directories whose names extend another one with a byte below '/': the byte-wise
+		// path order (pkg/l0-util/… < pkg/l0/…) differs from the segment-wise one
+		if i == 3 {
+			dir = "pkg/l0-util"
+		}
+		if i == 4 {
+			dir = "pkg/l1.v2"
+		}
+		if i == 1 && rootLib {
+			dir = "."
 		}
 		pk := &Pkg{Dir: dir, Name: fmt.Sprintf("l%d", i)}
 		p.Pkgs = append(p.Pkgs, pk)
@@ -243,25 +256,34 @@ func (p *Project) addDecoys(r *rand.Rand) {
 		n := fmt.Sprintf("package %s\n\nfunc Decoy(a int) int {\n\ta++\n\ta += 2\n\treturn a\n}\n", pkg)
 		return o, n
 	}
-	o, n := changedGo("l0")
+	// the paths no rule makes eligible also carry hand-written marker blocks of every kind, so
+	// that a patch/clean walker that reaches them would rewrite them
+	marked := func(pkg string) (string, string) {
+		o, n := changedGo(pkg)
+		blk := "\ta++\n\t// +goat:generate\n\t// +goat:tips: do not edit the block between the +goat comments\n\ta += 100\n\t// +goat:end\n" +
+			"\t// +goat:insert\n\t// +goat:delete\n\ta += 200\n\t// +goat:end\n\t// +goat:user\n\ta += 300\n\t// +goat:end\n"
+		return strings.Replace(o, "\ta++\n", blk, 1), strings.Replace(n, "\ta++\n", blk, 1)
+	}
+	o, n := marked("l0")
 	both("pkg/l0/decoy_test.go", strings.Replace(o, "func Decoy", "func decoyT", 1), strings.Replace(n, "func Decoy", "func decoyT", 1))
-	o, n = changedGo("td")
+	o, n = marked("td")
 	both("pkg/l0/testdata/td.go", o, n)
 	both("testdata/x/td.go", o, n)
-	o, n = changedGo("v")
+	o, n = marked("v")
 	both("vendor/v/v.go", o, n)
 	o, n = changedGo("nested")
 	both("nested/go.mod", "module example.com/nested\n\ngo 1.23\n", "module example.com/nested\n\ngo 1.23\n")
 	both("nested/n.go", o, n)
 	both("nested/sub/n.go", strings.Replace(o, "package nested", "package sub", 1), strings.Replace(n, "package nested", "package sub", 1))
-	o, n = changedGo("ign")
+	o, n = marked("ign")
 	both("ignoredir/i.go", o, n)
+	o, n = changedGo("ign")
 	both("ignoredirx/i.go", strings.Replace(o, "package ign", "package ignx", 1), strings.Replace(n, "package ign", "package ignx", 1))
 	o, n = changedGo("vendorx")
 	both("vendorx/v.go", o, n)
 	both("README.md", "old\n", "new\n")
 	both("data.txt", "1\n", "2\n")
-	o, n = changedGo("l0")
+	o, n = marked("l0")
 	both("pkg/l0/ignored_file.go", strings.Replace(o, "Decoy", "IgnoredFile", 1), strings.Replace(n, "Decoy", "IgnoredFile", 1))
 }
 
